@@ -23,7 +23,7 @@ CLAIMS = {
         text="Template.condTable evaluates each condition from its definition and the values of the non-cyclic declared conditions it "
              "references, looked up by name; C02_order proves (for all definition lists, acyclic or cyclic) that any permutation of the "
              "declarations gives the same value to every condition; C02_reference_false that undeclared and cyclic references are invisible "
-             "(read false); C02_presence, C02_if, C02_novalue_list/obj, C02_and_or/not/equals state the remaining clauses. The driver runs "
+             "(read false); C02_presence, C02_if, C02_novalue_list/obj, C02_and_or/not/equals state the remaining clauses (Fn::Equals as Python equality: C02_equals_text, C02_equals_objects_example), C02_condition_name_kept that the resolved resource keeps the condition's name as written. The driver runs "
              "Template.resolveT against CFModel.resolve (observing what it hands to re-validation) and every template is re-run with its "
              "Conditions permuted. Props/C02Termination proves that the two step bounds of the model never decide a result: "
              "C02_search_complete / C02_cycle_recognised (the bounded visited-set search finds every reachable node, by a potential "
